@@ -73,8 +73,14 @@ def signal_args(fr, name):
     raise ValueError(name)
 
 
+_EPS = [0.0]
+
+
 def range_of(fr, name):
-    f = fr.get_frequency
+    f0 = fr.get_frequency
+    # every case shifts all bounds by its own tiny offset (<< df): the numeric range values are then unique to the
+    # case, so a memo keyed on them can only have been filled by this case's own decoy frames (deterministic history)
+    f = lambda i: f0(i) + _EPS[0]
     if name == 'none':
         return None
     return {'inside': (f(3), f(9)), 'clip_low': (f(0) - 5 * DF, f(4)), 'clip_high': (f(10), f(15) + 7 * DF),
@@ -184,7 +190,20 @@ def case_sequences(c):
     steps = [(s, r) for s in SIGNALS for r in RANGES] + [(b, 'none') for b in BAD] + [(BAD[0], 'inside')]
     # separately computed signals on a zero twin (for the superposition check)
     solo = {}
+    _EPS[0] = (int(engine.sha([c['prior'], c['asc'], c['first'], c['depth']]), 16) % 100000) * 1e-9
     with contextlib.redirect_stdout(io.StringIO()):
+        # Deterministic process history: OTHER frames (different channel count, resolution, band edge, orientation) are
+        # injected with numerically the same bounding ranges first, so that anything memoised at class/module level on
+        # the range alone is poisoned in the same way in every process.
+        import setigen as stg
+        ref_fr = mk_frame('zeros', asc, 1, wd)
+        for (nch, df_, f1, a_) in ((7, 3.0, 985.0, True), (23, 0.5, 1040.0, False)):
+            for rn in RANGES:
+                dec = stg.Frame(fchans=nch, tchans=2, df=df_, dt=1.0, fch1=f1, ascending=a_, seed=1, t_start=0.0)
+                try:
+                    dec.add_signal(1000.0, 1.0, stg.box_f_profile(4.0), bounding_f_range=range_of(ref_fr, rn))
+                except Exception:
+                    pass
         for st in steps:
             if st[0] in BAD:
                 continue
